@@ -62,6 +62,15 @@ def bounded_cases(seed, thorough=False):
         'bool_column': pygaps.PointIsotherm(isotherm_data=pandas.DataFrame({'pressure': pb, 'loading': lb, 'branch': [bool(x) for x in marks]}),
                                             pressure_key='pressure', loading_key='loading', **meta),
     }
+    # columns of a slice of a logged table (row labels 1..n, not 0..n-1), pressure, loading and marks each passed as a Series
+    tab = pandas.DataFrame({'p': [9.0] + pb, 'l': [9.0] + lb, 'b': [0] + marks}).iloc[1:]
+    try:
+        b_ids['series_of_a_table_slice'] = pygaps.PointIsotherm(pressure=tab['p'], loading=tab['l'], branch=tab['b'], **meta)
+        b_ids['series_of_a_table_slice_bool_marks'] = pygaps.PointIsotherm(pressure=tab['p'], loading=tab['l'], branch=tab['b'].astype(bool), **meta)
+        b_ids['series_relabelled_from_zero'] = pygaps.PointIsotherm(pressure=tab['p'].reset_index(drop=True), loading=tab['l'].reset_index(drop=True),
+                                                                     branch=tab['b'].reset_index(drop=True), **meta)
+    except Exception as exc:
+        yield {'name': 'construction_route|series_of_a_table_slice', 'ok': False, 'detail': f"{type(exc).__name__}: {exc}"[:160]}
     for k, v in b_ids.items():
         same = v.iso_id == b_ids['int_marks'].iso_id
         yield {'name': f"construction_route|{k}", 'ok': same, 'detail': '' if same else f"{v.iso_id} != {b_ids['int_marks'].iso_id}"}
@@ -146,6 +155,17 @@ def bounded_cases(seed, thorough=False):
             except Exception as exc:
                 pairs_eq.append(f"{label}/{kind_}: {type(exc).__name__}: {exc}"[:120])
     yield {'name': 'construction_route|equality_agrees_with_identifier', 'ok': not pairs_eq, 'detail': '; '.join(pairs_eq[:3])}
+    # metadata numbers written as integer or as float literals, or held as numpy scalars (a value read from an array)
+    lit = {'int': dict(sample_mass=2, cycles=[1, 2]), 'float': dict(sample_mass=2.0, cycles=[1.0, 2.0]), 'numpy': dict(sample_mass=numpy.int64(2), cycles=[numpy.float64(1.0), 2])}
+    ids_l = {}
+    for k, extra in lit.items():
+        try:
+            ids_l[k] = pygaps.PointIsotherm(pressure=p, loading=l, **dict(meta, **extra)).iso_id
+        except Exception as exc:
+            ids_l[k] = f"{type(exc).__name__}: {exc}"[:80]
+    okl = len(set(ids_l.values())) == 1
+    other = pygaps.PointIsotherm(pressure=p, loading=l, **dict(meta, sample_mass=3, cycles=[1, 2])).iso_id
+    yield {'name': 'construction_route|metadata_integer_vs_float_literals', 'ok': okl and other != ids_l['int'], 'detail': '' if okl else str(ids_l)}
     ints = pygaps.PointIsotherm(pressure=[1, 2, 3], loading=[1, 2, 3], **meta).iso_id
     flts = pygaps.PointIsotherm(pressure=[1., 2., 3.], loading=[1., 2., 3.], **meta).iso_id
     yield {'name': 'construction_route|integer_vs_float_literals', 'ok': ints == flts, 'detail': '' if ints == flts else f"{ints} != {flts}"}
